@@ -693,7 +693,15 @@ def has_side_effect(node: ast.AST, safe_callable_whitelist: Collection[str] = fr
             has_side_effect(child, safe_callable_whitelist) for child in (node.lower, node.upper)
         )
 
-    if isinstance(node, (ast.DictComp)) and has_side_effect(node.value, safe_callable_whitelist):
+    if isinstance(node, ast.DictComp) and (
+        has_side_effect(node.key, safe_callable_whitelist)
+        or has_side_effect(node.value, safe_callable_whitelist)
+    ):
+        return True
+
+    if isinstance(node, (ast.SetComp, ast.ListComp, ast.GeneratorExp)) and has_side_effect(
+        node.elt, safe_callable_whitelist
+    ):
         return True
 
     if isinstance(node, (ast.SetComp, ast.ListComp, ast.GeneratorExp, ast.DictComp)):
